@@ -21,6 +21,7 @@ package vsched
 
 import (
 	"fmt"
+	"reflect"
 	"sort"
 	"sync"
 	"sync/atomic"
@@ -100,6 +101,7 @@ type sched struct {
 	locs      map[unsafe.Pointer]*locState
 	finished  chan struct{}
 	over      bool
+	chVC      map[uintptr][]int
 	raceSeen  map[string]bool
 }
 
@@ -291,7 +293,8 @@ func (s *sched) exit(me *thread) {
 	}
 	s.mu.Lock()
 	me.done = true
-	// joiners are expressed through WaitGroups; nothing to wake here
+	// joiners are expressed through WaitGroups and channels
+	s.wakeAllLocked(chanWait)
 	next := s.chooseLocked("exit", nil)
 	if next == nil {
 		alive := false
@@ -467,6 +470,121 @@ func Write(p unsafe.Pointer, site string) {
 	s.writeLocked(p, site, s.cur)
 	s.cur.vc = tickVC(s.cur.vc, s.cur.id)
 	s.mu.Unlock()
+}
+
+// ---------------------------------------------------------------------------
+// channels. The instrumenter rewrites, in the selected packages, receive expressions to RecvV / RecvV2, send statements
+// to SendF and close(ch) to CloseF. Receives poll the real channel without blocking at a scheduling point and park the
+// thread otherwise; a send is performed by a helper goroutine that blocks for real while the managed sender is parked
+// until the helper reports completion (so a polling receiver finds a parked sender on an unbuffered channel); every
+// completed channel operation wakes the parked threads. Happens-before follows send/close -> receive.
+// select statements and range-over-channel loops are not modelled (the progress backstop abandons such executions).
+
+var chanWait = new(int) // what threads parked on a channel operation wait for
+
+func chanKey(ch any) uintptr { return reflect.ValueOf(ch).Pointer() }
+
+func (s *sched) chanDoneLocked(key uintptr, recv bool) {
+	me := s.cur
+	if s.chVC == nil {
+		s.chVC = map[uintptr][]int{}
+	}
+	if recv {
+		me.vc = joinVC(me.vc, s.chVC[key])
+	} else {
+		s.chVC[key] = joinVC(copyVC(s.chVC[key]), me.vc)
+		me.vc = tickVC(me.vc, me.id)
+	}
+	s.wakeAllLocked(chanWait)
+}
+
+// chanPark parks the running thread until some channel operation completes; when nothing else can run it polls in real
+// time instead (the other side may be a goroutine the scheduler does not manage, e.g. a timer).
+func chanPark() {
+	s := cur
+	s.mu.Lock()
+	me := s.cur
+	others := false
+	for _, t := range s.threads {
+		if t != me && !t.done && t.blocked == nil {
+			others = true
+		}
+	}
+	if !others {
+		s.mu.Unlock()
+		time.Sleep(200 * time.Microsecond)
+		return
+	}
+	s.blockLocked(me, chanWait, "chan-wait")
+	s.mu.Unlock()
+}
+
+// RecvV2 is `v, ok := <-ch`.
+func RecvV2[T any](ch <-chan T) (T, bool) {
+	if !active.Load() {
+		v, ok := <-ch
+		return v, ok
+	}
+	for {
+		Point("chan-recv")
+		select {
+		case v, ok := <-ch:
+			s := cur
+			s.mu.Lock()
+			s.chanDoneLocked(chanKey(ch), true)
+			s.mu.Unlock()
+			return v, ok
+		default:
+		}
+		chanPark()
+	}
+}
+
+// RecvV is `<-ch`.
+func RecvV[T any](ch <-chan T) T {
+	v, _ := RecvV2(ch)
+	return v
+}
+
+// SendF is `ch <- v`: send performs the real (blocking) send.
+func SendF(ch any, send func()) {
+	if !active.Load() {
+		send()
+		return
+	}
+	s := cur
+	s.mu.Lock()
+	s.chanDoneLocked(chanKey(ch), false) // the value is published before the receiver can see it
+	s.mu.Unlock()
+	var done atomic.Bool
+	go func() {
+		send()
+		done.Store(true)
+	}()
+	for {
+		Point("chan-send")
+		if done.Load() {
+			s.mu.Lock()
+			s.wakeAllLocked(chanWait)
+			s.mu.Unlock()
+			return
+		}
+		chanPark()
+	}
+}
+
+// CloseF is `close(ch)`.
+func CloseF(ch any, closeIt func()) {
+	if !active.Load() {
+		closeIt()
+		return
+	}
+	s := cur
+	s.mu.Lock()
+	s.chanDoneLocked(chanKey(ch), false)
+	s.mu.Unlock()
+	closeIt()
+	Point("chan-close")
 }
 
 // ---------------------------------------------------------------------------
